@@ -42,6 +42,7 @@ type Profile struct {
 	PSpecialFloat int  // % of float inputs / validated float values that are NaN or +-Inf
 	PGlobal       int  // % of cases run with a global conf.Coercers override (String, Bool or Time) installed
 	PStructIn     int  // % of top-level struct records handed over as a Go struct value instead of a map
+	PTopPtrRecord int  // % of top-level schemas that are Ptr(Struct) over a flat record with exported keys
 	NilBias       bool // whole inputs are re-drawn (up to 10 times) until the implementation reports no issues
 	Repeats       int  // how many times a case is re-run (with reshuffled schema insertion orders and varying pool states)
 }
@@ -62,6 +63,8 @@ type Gen struct {
 	P      Profile
 	nextID int
 	keyN   int
+
+	forceExported bool
 }
 
 func (g *Gen) id() int { g.nextID++; return g.nextID }
@@ -366,7 +369,7 @@ func (g *Gen) strct(depth int) *Node {
 	nf := 1 + r.Intn(g.P.MaxFields)
 	used := map[string]bool{}
 	// records meant to be handed over as Go struct values: every key an exported identifier
-	exported := depth == 0 && r.P(g.P.PStructIn)
+	exported := g.forceExported || (depth <= 1 && r.P(g.P.PStructIn))
 	n.Exported = exported
 	for len(n.Fields) < nf {
 		k := Pick(r, keyPool)
@@ -451,6 +454,12 @@ func (g *Gen) strct(depth int) *Node {
 
 // Schema generates a top-level schema: mostly structs, sometimes slices / pointers / primitives.
 func (g *Gen) Schema() *Node {
+	if g.P.PTopPtrRecord > 0 && g.R.P(g.P.PTopPtrRecord) {
+		g.forceExported = true
+		e := g.strct(g.P.MaxDepth - 1) // (its fields are primitives)
+		g.forceExported = false
+		return &Node{Kind: KPtr, Elem: e}
+	}
 	if g.R.P(g.P.PTopSlice) {
 		n := &Node{Kind: KSlice, Elem: g.node(1)}
 		if n.Elem.Kind == KPre || n.Elem.Kind == KCustom {
@@ -554,6 +563,7 @@ func ProfileByName(name string) Profile {
 		p.PCatch = 30
 		p.PSlice = 30
 	case "C19":
+		p.PTopPtrRecord = 8
 		p.PDefault = 45
 		p.PSlice = 35
 		p.PPT = 30
